@@ -84,13 +84,24 @@ def build_case(c):
     with warnings.catch_warnings():
         warnings.simplefilter("ignore")
         oc, arrays, params, cfg2, _ = fdtdx.place_objects(object_list=object_list, config=cfg, constraints=cons, key=KEY)
+    global USER_ORDER
+    USER_ORDER = [o.name for o in object_list]
     return oc, arrays, cfg2
 
 
+USER_ORDER = None
+
+
 def report(oc, arrays, cfg):
-    from fdtdx.objects.static_material.static import UniformMaterialObject
+    from fdtdx.objects.static_material.static import UniformMaterialObject, StaticMultiMaterialObject
     placed = []
-    for o in oc.static_material_objects:
+    # the user's list order (as handed to place_objects), NOT the container's own static_material_objects property:
+    # the tie-break rule of the property is about the user's list
+    statics = [o for o in oc.object_list if isinstance(o, (UniformMaterialObject, StaticMultiMaterialObject))]
+    if USER_ORDER is not None:
+        # "the volume is lowest": it precedes every other object whatever its position in the user's list
+        statics.sort(key=lambda o: (-1 if o.name == oc.volume.name else USER_ORDER.index(o.name)))
+    for o in statics:
         d = {"name": o.name, "order": int(o.placement_order), "box": [[int(a), int(b)] for a, b in o.grid_slice_tuple]}
         if isinstance(o, UniformMaterialObject):
             d["kind"] = "uniform"
